@@ -28,6 +28,7 @@ Definition M_APPEND := 40. Definition M_PREPEND := 41. Definition M_INSERT := 42
 Definition M_SHIFT := 44. Definition M_POP := 45. Definition M_MERGE := 46. Definition M_SWAP := 47.
 Definition M_CONTAINS := 48. Definition M_FIND := 49. Definition M_SET := 50. Definition M_GET := 51.
 Definition M_DELETE := 52.
+Definition M_INC := 53. Definition M_DEC := 54.   (* 自增 自减 *)
 
 (* ---------- syntax ---------- *)
 Inductive arith := AAdd | ASub | AMul | ADiv | AIntDiv | AMod.
